@@ -66,6 +66,12 @@ def editable_cells(net, rng):
                     and not k.startswith("_") and len(net[k]) and not k.endswith("geodata")):
         df = net[t]
         for c in df.columns:
+            if c in ("from_junction", "to_junction") and t in ("pipe", "valve", "flow_control", "pump") \
+                    and len(net.junction) > 2:
+                row = rng.choice(list(df.index))
+                other = [j for j in net.junction.index if j != df.at[row, c]]
+                out.append((t, int(row), c, int(rng.choice(other))))          # re-route one end
+                continue
             if c in ("name", "type", "std_type", "et", "element", "junction", "from_junction", "to_junction",
                      "return_junction", "flow_junction", "sections"):
                 continue
@@ -98,16 +104,22 @@ def gen_history(rng, net, profile, thorough):
     hist, pending = [], []
     scratch = copy.deepcopy(net)
     cells = editable_cells(scratch, rng)
-    toggles = [c for c in cells if isinstance(c[3], bool)]
-    if kw0.get("only_update_hydraulic_matrix") and toggles:
+    toggles = [c for c in cells if isinstance(c[3], bool) or c[2] in ("from_junction", "to_junction")]
+    upd_focus = bool(kw0.get("only_update_hydraulic_matrix"))
+    if upd_focus and toggles:
         cells = cells + toggles * 3
+    reuse_used = False
     while len(hist) < n - 1:
         r = rng.random()
         if r < 0.40:
             kw = dict(kw0, mode=rng.choice(modes))
             q = rng.random()
-            if q < 0.15:
-                kw["iter"] = 1                                  # (almost certainly) failing run
+            if q < 0.15 or (upd_focus and q < 0.4):
+                # (almost certainly) failing run: too few Newton or Colebrook iterations
+                if rng.random() < 0.6:
+                    kw["iter"] = 1
+                else:
+                    kw.update(friction_model="colebrook", max_iter_colebrook=rng.choice([1, 2, 3]))
             elif q < 0.35:
                 kw.update(only_update_hydraulic_matrix=True, reuse_internal_data=rng.random() < 0.6)
             elif q < 0.45 and profile == "heat":
@@ -134,12 +146,18 @@ def gen_history(rng, net, profile, thorough):
     for op in pending:
         if rng.random() < 0.8:
             hist.append(op)
-    hist.append(["run", dict(kw0, mode=rng.choice(modes))])
+    final = dict(kw0, mode=rng.choice(modes))
+    if upd_focus and rng.random() < 0.6:
+        final["reuse_internal_data"] = True       # comparable if no earlier call asked for reuse
+    hist.append(["run", final])
     return hist
 
 
-def comparable(kw):
-    return not kw.get("reuse_internal_data")
+def comparable(kw, reuse_before):
+    """a call is compared with the same call on a fresh copy unless it falls under the named exception:
+    reuse_internal_data requested AND an earlier call of the history requested it too (only such a call may
+    legitimately leave a cache)"""
+    return not (kw.get("reuse_internal_data") and kw.get("only_update_hydraulic_matrix") and reuse_before)
 
 
 def replay_history(spec, hist, check_every=True):
@@ -149,6 +167,8 @@ def replay_history(spec, hist, check_every=True):
     net = copy.deepcopy(net0)
     problems, stats = [], {"runs": 0, "compared": 0, "failed_runs": 0, "heat_runs": 0}
     user_ops = []
+    reuse_before = False
+    prev_failure = "none"
     for i, op in enumerate(hist):
         if op[0] != "run":
             H.apply_user_op(net, op)
@@ -168,7 +188,12 @@ def replay_history(spec, hist, check_every=True):
         if d:
             problems.append({"kind": "user-part-modified", "where": d.split("[")[0], "index": i,
                              "what": "pipeflow(%s) changed %s" % (kw, d)})
-        if not comparable(kw) or not (check_every or i == len(hist) - 1):
+        cmp_ok = comparable(kw, reuse_before)
+        reuse_before = reuse_before or bool(kw.get("reuse_internal_data") and kw.get("only_update_hydraulic_matrix"))
+        this_failure, prev = (st[2] if st[0] != "ok" else None), prev_failure
+        if this_failure:
+            prev_failure = this_failure
+        if not cmp_ok or not (check_every or i == len(hist) - 1):
             continue
         fresh = copy.deepcopy(net0)
         for u in user_ops:
@@ -185,6 +210,7 @@ def replay_history(spec, hist, check_every=True):
         ra, rb = H.snap_results(net), H.snap_results(fresh)
         if st[0] != st2[0]:
             problems.append({"kind": "history-dependence", "where": "outcome", "index": i,
+                             "prev_failure_site": prev,
                              "outcomes": "/".join(sorted([st[0], st2[0]])),
                              "what": "pipeflow(%s) after the history: %s %s; on a fresh copy: %s %s"
                                      % (kw, st[0], st[1][:80], st2[0], st2[1][:80])})
@@ -192,6 +218,7 @@ def replay_history(spec, hist, check_every=True):
             d = H.diff_snap(ra, rb)
             if d:
                 problems.append({"kind": "history-dependence", "where": d.split("[")[0], "index": i,
+                                 "prev_failure_site": prev,
                                  "outcomes": st[0],
                                  "what": "pipeflow(%s): %s differs between the net with history and a fresh copy"
                                          % (kw, d)})
@@ -294,6 +321,69 @@ def search_stale(ctx, specs, mode, upd, reuse, fn, key):
     return False
 
 
+def probe_leftover(ctx, specs):
+    """search for the conclusion of no_cache_left_behind: a FAILED call without reuse_internal_data on a
+    temporarily different description, then the same description as a fresh net, then a call with
+    only_update_hydraulic_matrix + reuse_internal_data - must equal the fresh net"""
+    from harness import gen, c12_hist as H
+    inducers = [{"iter": 1}, {"friction_model": "colebrook", "max_iter_colebrook": 1},
+                {"friction_model": "colebrook", "max_iter_colebrook": 2},
+                {"friction_model": "colebrook", "max_iter_colebrook": 3}]
+    n = bad = 0
+    seen = set()
+    for p, spec in specs:
+        net_p = gen.build(spec)
+        cand = [c for c in editable_cells(net_p, ctx.rng)
+                if isinstance(c[3], bool) or c[2] in ("from_junction", "to_junction")][:5]
+        cand.append(None)                                        # failing call on the unchanged description
+        for mode in (["hydraulics", "bidirectional"] if p == "heat" else ["hydraulics"]):
+            final = {"mode": mode, "use_numba": False, "only_update_hydraulic_matrix": True,
+                     "reuse_internal_data": True}
+            fresh = gen.build(spec)
+            st_f = H.do_run(fresh, final)
+            rf = H.snap_results(fresh)
+            for c in cand:
+                for ind in inducers:
+                    net = gen.build(spec)
+                    hist = []
+                    if c is not None:
+                        old = H.cell(net, c[0], c[1], c[2])
+                        hist.append(["edit", c[0], c[1], c[2], c[3]])
+                    pre = dict({"mode": mode, "use_numba": False, "only_update_hydraulic_matrix": True}, **ind)
+                    hist.append(["run", pre])
+                    if c is not None:
+                        hist.append(["edit", c[0], c[1], c[2], old])
+                    hist.append(["run", final])
+                    try:
+                        site = None
+                        for op in hist[:-1]:
+                            if op[0] == "run":
+                                r = H.do_run(net, op[1])
+                                site = r[2] if r[0] != "ok" else None
+                            else:
+                                H.apply_user_op(net, op)
+                        if site is None:
+                            continue                             # the inducer did not make the call fail
+                        st = H.do_run(net, final)
+                    except Exception as e:  # noqa: BLE001
+                        ctx.broken("harness", "leftover probe", repr(e))
+                        continue
+                    n += 1
+                    d = None if st[0] != st_f[0] else H.diff_snap(H.snap_results(net), rf)
+                    if st[0] != st_f[0] or d:
+                        bad += 1
+                        if site in seen:
+                            continue
+                        seen.add(site)
+                        ctx.violation({"kind": "cache-left-behind", "key": "_internal_data", "prev_failure_site": site,
+                                       "mode": mode},
+                                      "a failed pipeflow(%s) [raised in %s] leaves its cached matrix on the net: the "
+                                      "later pipeflow(%s) gives %s%s, on a fresh net %s"
+                                      % (pre, site, final, st[0], (" with different " + d) if d else "", st_f[0]),
+                                      {"spec": spec, "history": hist})
+    ctx.corr("leftover probe: failed call without reuse, then only_update+reuse call == fresh net", n, bad)
+
+
 # ------------------------------------------------------------------------------------------ main
 def make_specs(ctx, n):
     from harness import gen
@@ -378,6 +468,14 @@ def run(ctx):
             if not found:
                 ctx.broken("scan", "%s: %s reads stale %s" % (teff.cfg_name(*k), fn, key),
                            "no concrete history found that shows the dependence")
+        stage_leaks = sorted(set(teff.cfg_name(*k) for k, tr in progs.items() if not k[2] and
+                                 "W" in set().union(*teff.py_eff(tr, "_internal_data",
+                                                                 lambda x: x in teff.STAGE_FAILURE_SITES))))
+        if stage_leaks:
+            ctx.note("a call without reuse may leave its own _internal_data at a return / stage-failure exit in: %s"
+                     % stage_leaks)
+        inner = sorted(set(x for k, tr in progs.items() if not k[2] for x in teff.leaky_sites(tr)))
+        ctx.extra["raise_sites_inside_the_loop_keeping_the_cache"] = inner
         for fnq, key, how, line in sc.alias_writes:
             ctx.note("alias write: %s -> %s (%s, line %d)" % (fnq, key, how, line))
     # ---- differential
@@ -418,6 +516,8 @@ def run(ctx):
                        "reuse_internal_data": bool(kw.get("reuse_internal_data"))}
                 if "outcomes" in pb:
                     sig["outcomes"] = pb["outcomes"]
+                if "prev_failure_site" in pb:
+                    sig["prev_failure_site"] = pb["prev_failure_site"]
                 if pb["kind"] == "user-part-modified":
                     sig = {"kind": pb["kind"], "where": pb["where"]}
                 ctx.violation(sig, pb["what"], {"spec": spec, "history": small, "full_history": hist})
@@ -426,6 +526,7 @@ def run(ctx):
              "calls %(runs)d, compared %(compared)d, failing calls %(failed_runs)d, heat-from-stored %(heat_runs)d" % tot)
     for k, v in tot.items():
         ctx.count(k, v)
+    probe_leftover(ctx, specs[:6] if ctx.quick else specs[:20])
     heat_vs_sequential(ctx, specs)
     if not proved and not ctx.violations:
         ctx.note("obligation broken and the differential found no concrete input")
